@@ -17,12 +17,14 @@ RULE = ("A generated problem (data, default-type prior, library of 8-40 prior sa
         "the cases, on a MultiPool(2) with equal batching. Oracle: bit-identical outputs at every step; global numpy / "
         "random state byte-identical before and after every call; no linear-parameter vector repeated between "
         "batches of one call (identical library rows in different batches have identical (a, A), so a repeated child "
-        "stream would repeat the draw) or between successive identical calls. Non-trivial: a history of >=2 calls, "
-        "or >=2 batches, or the by-count path.")
+        "stream would repeat the draw) or between successive identical calls. A second search runs one seeded prior.sample + "
+        "by-count rejection_sample in three fresh interpreters with different PYTHONHASHSEED and compares digests. "
+        "Non-trivial: a history of >=2 calls, or >=2 batches, or the by-count path.")
 SHARDS = {"quick": 4, "thorough": 16}
 BUDGET = {"quick": 80, "thorough": 800}
 
-ENTRIES = ["mll", "rej_mem", "rej_cache", "rej_file", "rej_count", "iter_mem", "iter_file", "prior_sample", "read_batch"]
+ENTRIES = ["mll", "rej_mem", "rej_cache", "rej_file", "rej_count", "iter_mem", "iter_file", "prior_sample", "read_batch",
+           "prior_sample_fail"]
 
 
 @st.composite
@@ -66,8 +68,17 @@ def table_bits(s):
 
 
 def global_state():
-    st_ = np.random.get_state()
-    return (st_[0], st_[1].tobytes(), st_[2], st_[3], st_[4]), random.getstate()
+    """numpy's global generator (which bit generator object it is bound to, and its full state) and Python's"""
+    st_ = np.random.get_state(legacy=False)
+
+    def flat(x):
+        if isinstance(x, dict):
+            return tuple((k, flat(v)) for k, v in sorted(x.items()))
+        if isinstance(x, np.ndarray):
+            return x.tobytes()
+        return x
+
+    return id(np.random.get_bit_generator()), flat(st_), random.getstate()
 
 
 def body_factory(ctx):
@@ -105,6 +116,13 @@ def body_factory(ctx):
                 elif e == "iter_file":
                     o = joker.iterative_rejection_sample(data, libfile, n_requested_samples=c["n_req"], init_batch_size=c["init_batch"],
                                                          n_batches=c["n_batches"], randomize_prior_order=c["randomize"], **kw)
+                elif e == "prior_sample_fail":
+                    # a call that fails (non-integer size): whatever it does, it must not touch the global generators
+                    try:
+                        prior.sample(size=c["size"] + 0.5, rng=prng)
+                    except Exception:
+                        pass
+                    o = np.zeros(1)
                 elif e == "prior_sample":
                     o = prior.sample(size=c["size"], rng=prng, return_logprobs=c["logprobs"])
                 else:
@@ -186,5 +204,69 @@ def body_factory(ctx):
     return body
 
 
+# ----------------------------------------------------------------------------- other interpreter sessions
+CHILD = r"""
+import sys, json, hashlib, warnings
+warnings.filterwarnings("ignore")
+sys.path.insert(0, sys.argv[1])
+from vt import build; build.ensure_ext()
+import numpy as np, astropy.units as u
+import thejoker as tj
+from vt import gens
+spec = json.load(open(sys.argv[2]))
+prior = gens.build_prior(spec["prior"]); data = gens.build_data(spec)
+h = hashlib.sha256()
+s = prior.sample(size=16, generate_linear=True, return_logprobs=True, rng=np.random.default_rng(spec["seed"]))
+for nm in sorted(s.par_names): h.update(np.asarray(s[nm].value if hasattr(s[nm], "value") else s[nm]).tobytes())
+out = tj.TheJoker(prior, rng=np.random.default_rng(spec["seed"])).rejection_sample(data, 40)
+for nm in sorted(out.par_names): h.update(np.asarray(out[nm].value).tobytes())
+print("DIGEST", h.hexdigest())
+"""
+
+
+@st.composite
+def session_cases(draw):
+    spec = draw(gens.problems(max_surveys=1, max_epochs=5, max_poly=2, n_rows=(1, 2), units=False))
+    spec["prior"]["via"] = "default"
+    if spec["prior"]["K"]["kind"] != "fcm":
+        spec["prior"]["K"] = {"kind": "fcm", "sigma_K0": 30.0, "sigma_K0_unit": "km/s", "P0": 365.25, "P0_unit": "d", "max_K": None}
+    spec["seed"] = draw(st.integers(0, 2**31))
+    spec["hash_seeds"] = [0, draw(st.integers(1, 4000)), draw(st.integers(4001, 2**31))]
+    return spec
+
+
+def session_body_factory(ctx):
+    import json
+    import subprocess
+    import sys
+
+    from vt.runner import VERIF, jsonable
+
+    def body(spec):
+        fn = os.path.join(ctx.workdir, "c10session.json")
+        with open(fn, "w") as f:
+            json.dump(jsonable(spec), f)
+        procs = []
+        for hs in spec["hash_seeds"]:
+            env = dict(os.environ, PYTHONHASHSEED=str(hs))
+            procs.append(subprocess.Popen([sys.executable, "-W", "ignore", "-c", CHILD, VERIF, fn], env=env,
+                                          stdout=subprocess.PIPE, stderr=subprocess.PIPE, text=True))
+        digests = []
+        for p_ in procs:
+            out, err = p_.communicate(timeout=600)
+            d = [l.split()[1] for l in out.split("\n") if l.startswith("DIGEST")]
+            if p_.returncode != 0 or not d:
+                raise Violation("a seeded run in a fresh interpreter failed", stderr=err[-400:])
+            digests.append(d[0])
+        if len(set(digests)) != 1:
+            raise Violation("equal seeds give different prior samples / posterior samples in different interpreter "
+                            "sessions (outputs depend on the string-hash seed of the process)", digests=digests,
+                            hash_seeds=spec["hash_seeds"])
+        ctx.note_case(spec, True, ["sessions:3 interpreters"])
+
+    return body
+
+
 def run(ctx):
     ctx.search("histories", cases(thorough=not ctx.quick), body_factory(ctx), quick=240, thorough=8000)
+    ctx.search("sessions", session_cases(), session_body_factory(ctx), quick=4, thorough=160, shrink=False)
